@@ -183,6 +183,10 @@ const ATTR_NAMES: &[&str] = &[
 ];
 
 pub fn gen_ascii(rng: &mut Rng, max: usize) -> String {
+    if max >= 4096 && rng.chance(1, 4) {
+        // exactly at the bound (8191 / 8192 / 8193 / 16384 / 65535 ...)
+        return (0..max).map(|i| (b'a' + (i % 26) as u8) as char).collect();
+    }
     let n = match rng.below(10) {
         0 => 0,
         1..=6 => rng.usize(1, 8.min(max.max(1))),
@@ -253,9 +257,19 @@ impl ShapeCfg {
             max_set: *rng.pick(&[1, 2, 3, 6]),
             max_depth: *rng.pick(&[0, 1, 2, 3, 5]),
             max_members: *rng.pick(&[1, 2, 4]),
-            max_str: if big { *rng.pick(&[300, 1023, 5000]) } else { *rng.pick(&[0, 4, 16, 40, 255, 256]) },
+            max_str: if big { *rng.pick(&[300, 1023, 5000, 8191, 8192, 8193, 16384, 65535]) } else { *rng.pick(&[0, 4, 16, 40, 255, 256]) },
             mixed_sets: rng.chance(1, 8),
         }
+        .bounded()
+    }
+    /// keep messages with very long strings to a handful of attributes
+    fn bounded(mut self) -> ShapeCfg {
+        if self.max_str >= 8191 {
+            self.max_attrs = self.max_attrs.min(3);
+            self.max_set = self.max_set.min(2);
+            self.max_members = self.max_members.min(2);
+        }
+        self
     }
     pub fn tiny() -> ShapeCfg {
         ShapeCfg {
@@ -610,7 +624,16 @@ pub fn gen_stream(rng: &mut Rng, c: &ShapeCfg) -> Stream {
 // ---------------------------------------------------------------------------------------------------------------
 // payloads
 
+/// sizes around the buffer sizes that matter somewhere on the path (BufReader 8 KiB, 4 KiB pages, ureq/hyper chunking,
+/// the 16-bit length limit)
+pub const BOUNDARY_SIZES: [usize; 17] = [255, 256, 4095, 4096, 4097, 8191, 8192, 8193, 16383, 16384, 16385, 32768, 65535, 65536, 65537, 131071, 131072];
+
 pub fn gen_payload(rng: &mut Rng, max: usize) -> Vec<u8> {
+    if rng.chance(1, 25) {
+        // a size class, independent of the caller's usual bound
+        let n = *rng.pick(&BOUNDARY_SIZES);
+        return if rng.chance(1, 2) { rng.bytes(n) } else { vec![*rng.pick(&[0x00u8, 0x03, 0x61, 0xff]); n] };
+    }
     match rng.below(10) {
         0 | 1 => vec![],
         2 => vec![*rng.pick(&[0x03u8, 0x01, 0x00, 0x4a, 0xff])],
